@@ -79,9 +79,9 @@ def perms(seq, limit, rnd):
     return [list(p) for p in pick]
 
 
-def variants(blocks, tier, seed):
+def variants(blocks, tier, seed, lim=None):
     rnd = random.Random(seed)
-    lim = 6 if tier == "quick" else 120
+    lim = lim or (6 if tier == "quick" else 120)
     out = []
     # (a) block permutations (expression blocks without component header must stay "headerless": the
     #     component of an un-headed expression block is the default one wherever it stands)
@@ -102,10 +102,12 @@ def variants(blocks, tier, seed):
 
 def tasks(tier, seed):
     out = []
-    for bi, blocks in enumerate(BASES):
+    from .. import gen
+    G = [p["meta"]["blocks"] for p in gen.programs(tier, seed, 14, 140, "std")]
+    for bi, blocks in enumerate(BASES + G):
         base = render(blocks)
         seen = {base}
-        for kind, nb in variants(blocks, tier, seed + bi):
+        for kind, nb in variants(blocks, tier, seed + bi, lim=None if bi < len(BASES) else (4 if tier == "quick" else 10)):
             t = render(nb)
             if t in seen:
                 continue
